@@ -454,3 +454,76 @@ pub fn cancel(_a: &Args) -> i32 {
     print_summary(&json!({"evaluations": evaluations, "rows": routes.len() * 2, "mismatches": mismatches}));
     0
 }
+
+
+/// Routers built from generated servers, for the routing checks (C16): the package-less Greeter,
+/// p.q.Greeter and the empty p.Empty service, mounted through `add_rpc_service`.
+pub fn generated_router() -> Router {
+    let log: Log = Default::default();
+    let mk = |tag: &'static str| Impl { tag, log: log.clone() };
+    Router::new()
+        .add_rpc_service(gen::root_greeter::greeter_server::GreeterServer::new(mk("Greeter")))
+        .add_rpc_service(gen::pq_greeter::greeter_server::GreeterServer::new(mk("p.q.Greeter")))
+        .add_rpc_service(gen::p_empty::empty_server::EmptyServer::new(mk("p.Empty")))
+        .add_rpc_service(gen::c17_probe::probe_server::ProbeServer::new(mk("Probe")))
+}
+
+
+/// C11 at the level of the generated server code: behind the inbound timeout layer (as the network
+/// installs it) a handler that needs longer than the deadline is answered RequestTimeout at the
+/// deadline and is dropped - for every generated method, with a configured default and with a
+/// deadline in the request's header.
+pub fn deadline(_a: &Args) -> i32 {
+    use tower::ServiceExt;
+    let imp = CancelImpl::default();
+    let router = Router::new()
+        .add_rpc_service(gen::root_greeter::greeter_server::GreeterServer::new(imp.clone()))
+        .add_rpc_service(gen::root_greet::greet_server::GreetServer::new(imp.clone()))
+        .add_rpc_service(gen::c17_probe::probe_server::ProbeServer::new(imp.clone()));
+    let m = Msg { a: 1, s: "x".into() };
+    let bin = |v: &Msg| Bytes::from(bincode::serialize(v).unwrap());
+    let routes: Vec<(&str, Bytes)> = vec![
+        ("/Greeter/SayHello", bin(&m)),
+        ("/Greeter/Say", Bytes::from(serde_json::to_vec(&m).unwrap())),
+        ("/Greet/x", bin(&m)),
+        ("/c17.Probe/UnitB", Bytes::new()),
+        ("/c17.Probe/OptJ", Bytes::from_static(b"null")),
+    ];
+    let mut mismatches: Vec<Value> = Vec::new();
+    let mut evaluations = 0u64;
+    let rt = tokio::runtime::Builder::new_current_thread().enable_all().start_paused(true).build().unwrap();
+    for (default_ms, header_ms) in [(Some(150u64), None), (None, Some(150u64)), (Some(5_000), Some(150)), (Some(150), Some(5_000))] {
+        for (path, body) in &routes {
+            evaluations += 1;
+            let (s0, d0) = (imp.started.load(std::sync::atomic::Ordering::SeqCst), imp.dropped.load(std::sync::atomic::Ordering::SeqCst));
+            let mut svc = anemo::verif::direct::with_inbound_timeout(default_ms.map(std::time::Duration::from_millis), router.clone().boxed_clone());
+            let mut req = Request::new(body.clone()).with_route(*path);
+            if let Some(h) = header_ms {
+                req.set_timeout(std::time::Duration::from_millis(h));
+            }
+            let (status, took, started, dropped) = rt.block_on(async {
+                let t0 = tokio::time::Instant::now();
+                let resp = tokio::time::timeout(std::time::Duration::from_secs(60), svc.call(req)).await;
+                let took = t0.elapsed().as_millis() as u64;
+                tokio::time::sleep(std::time::Duration::from_millis(50)).await;
+                (
+                    resp.ok().and_then(|r| r.ok()).map(|r| r.status().to_u16()),
+                    took,
+                    imp.started.load(std::sync::atomic::Ordering::SeqCst) > s0,
+                    imp.dropped.load(std::sync::atomic::Ordering::SeqCst) > d0,
+                )
+            });
+            let what = format!("{path} (default {default_ms:?} ms, header {header_ms:?} ms)");
+            if !started {
+                mismatches.push(json!({"what": format!("{what}: the handler never started")}));
+            } else if status != Some(408) || !(140..=200).contains(&took) {
+                mismatches.push(json!({"what": format!("{what}: answered {status:?} after {took} ms, expected RequestTimeout at 150 ms")}));
+            } else if !dropped {
+                mismatches.push(json!({"what": format!("{what}: RequestTimeout was sent but the handler is still alive 50 ms later")}));
+            }
+        }
+    }
+    mismatches.truncate(6);
+    print_summary(&json!({"evaluations": evaluations, "rows": routes.len() * 4, "mismatches": mismatches}));
+    0
+}
